@@ -132,6 +132,24 @@ func c07(c *q.Ctx) {
 		c.Effect(vs, q.Eff{Spec: "State.verifyXuperSign", Arg: 1, Glob: "p2", Req: []q.Cond{{Canon: "(nil == p1.XuperSign)", Sense: false}}, Why: "aggregated-signature transactions use the XuperSign path with the same digest", Rule: "K11"})
 	}
 	xuperSignRules(c)
+	// every check of ImmediateVerifyTx / ImmediateVerifyAutoTx sits under `version > root version`: a version outside
+	// [root, beta] - above OR below - is refused first (a negative version would reach `return true` unchecked)
+	for _, name := range []string{"ImmediateVerifyTx", "ImmediateVerifyAutoTx"} {
+		if f := c.Fn(st + "(*State)." + name); f != nil {
+			p := "p1"
+			if name == "ImmediateVerifyAutoTx" {
+				p = "p2"
+			}
+			c.Guard(f, q.Cond{Canon: "(" + p + ".Version < 0)", Sense: true}, q.ToSuccess(), q.Opt{})
+			c.Guard(f, q.Cond{Canon: "(3 < " + p + ".Version)", Sense: true}, q.ToSuccess(), q.Opt{})
+		}
+	}
+	// the verified-identity set of the classic signature path: the initiator and, per auth_require entry, the LAST
+	// element of the path - the one whose signature IdentifyAK checked (never the account the path starts with)
+	if vs := c.Fn(st + "(*State).verifySignatures"); vs != nil {
+		c.MapStoreKeys(vs, "newmap<map[string]bool>", []string{"p1.Initiator", "strings.Split(p1.AuthRequire[],\"/\")[last]",
+			"i:CryptoClient.GetAddressFromPublicKey(p0.sctx.Crypt,i:CryptoClient.GetEcdsaPublicKeyFromJsonStr(p0.sctx.Crypt,p1.InitiatorSigns[].PublicKey)#0)#0"}, "only names whose key signed are marked verified")
+	}
 	vu := c.Fn(st + "(*State).verifyUTXOPermission")
 	if vu != nil {
 		c.Gate(vu, "utils::IdentifyAccount", q.ToSuccess(), q.Opt{K1Only: true})
